@@ -265,37 +265,50 @@ func sortedKeys[V any](m map[string]V) []string {
 type refNumerical struct {
 	vals []float64
 	errs uint64
+	// exact running sums of the samples and of their squares (every float64 is
+	// a rational), so that the figures of a long history cost O(1) per prefix
+	sum, sumSq *big.Rat
+	mn, mx     float64
+}
+
+func (r *refNumerical) add(v float64) {
+	if r.sum == nil {
+		r.sum, r.sumSq = new(big.Rat), new(big.Rat)
+		r.mn, r.mx = v, v
+	}
+	x := new(big.Rat).SetFloat64(v)
+	r.sum.Add(r.sum, x)
+	r.sumSq.Add(r.sumSq, new(big.Rat).Mul(x, x))
+	if v < r.mn {
+		r.mn = v
+	}
+	if v > r.mx {
+		r.mx = v
+	}
+	r.vals = append(r.vals, v)
 }
 
 // stats computes count, mean, sample standard deviation, min and max of the
 // full sample list (S5). Mean and variance are computed exactly with rationals
-// (every float64 is a rational) and rounded once, so the reference is immune to
-// the magnitude/spread of the data.
+// (mean = S/n, variance = (SS - S*S/n)/(n-1) with the exact sums S and SS) and
+// rounded once, so the reference is immune to the magnitude/spread of the
+// data and to the length of the history.
 func (r *refNumerical) stats() (n int, mean, sd, mn, mx float64) {
 	n = len(r.vals)
 	if n == 0 {
 		return
 	}
-	mn, mx = r.vals[0], r.vals[0]
-	sum := new(big.Rat)
-	for _, v := range r.vals {
-		sum.Add(sum, new(big.Rat).SetFloat64(v))
-		if v < mn {
-			mn = v
-		}
-		if v > mx {
-			mx = v
-		}
-	}
-	m := new(big.Rat).Quo(sum, big.NewRat(int64(n), 1))
+	mn, mx = r.mn, r.mx
+	nn := big.NewRat(int64(n), 1)
+	m := new(big.Rat).Quo(r.sum, nn)
 	mean, _ = m.Float64()
 	if n > 1 {
-		ss := new(big.Rat)
-		for _, v := range r.vals {
-			d := new(big.Rat).Sub(new(big.Rat).SetFloat64(v), m)
-			ss.Add(ss, d.Mul(d, d))
-		}
+		ss := new(big.Rat).Mul(r.sum, m) // S*S/n
+		ss.Sub(r.sumSq, ss)
 		variance, _ := ss.Quo(ss, big.NewRat(int64(n-1), 1)).Float64()
+		if variance < 0 {
+			variance = 0
+		}
 		sd = math.Sqrt(variance)
 	}
 	return
